@@ -124,17 +124,25 @@ Definition kv_watch (v : keyview) (n : string) : keyview :=
   {| kv_open := kv_open v; kv_table := kv_table v; kv_nds_sub := kv_nds_sub v;
      kv_interest := Some (sadd n (match kv_interest v with Some l => l | None => [] end)); kv_val := kv_val v |}.
 
+(** a subscription or a lookup of the name table's type marks the name table as subscribed *)
+Definition kv_nds (v : keyview) (t' : rtype) : keyview :=
+  if rtype_eqb t' TNt then {| kv_open := kv_open v; kv_table := kv_table v; kv_nds_sub := true; kv_interest := kv_interest v; kv_val := kv_val v |} else v.
+Definition kv_subscribe (t : rtype) (v : keyview) (t' : rtype) (n' : string) : keyview :=
+  let v1 := kv_nds v t' in if rtype_eqb t' t then kv_watch v1 n' else v1.
+(** a lookup subscribes only when it misses; a name that is served is already of interest *)
+Definition kv_lookup (t : rtype) (n : string) (v : keyview) (t' : rtype) (n' : string) : keyview :=
+  let v1 := kv_nds v t' in
+  if rtype_eqb t' t
+  then match kv_val v1 with
+       | Some _ => if String.eqb n' n then v1 else kv_watch v1 n'
+       | None => kv_watch v1 n'
+       end
+  else v1.
+
 Definition kv_step (c : scfg) (o : oracle) (t : rtype) (n : string) (v : keyview) (x : op) : keyview :=
   match x with
-  | OSubscribe t' n' | OLookup t' n' =>
-      let v1 := if rtype_eqb t' TNt then {| kv_open := kv_open v; kv_table := kv_table v; kv_nds_sub := true; kv_interest := kv_interest v; kv_val := kv_val v |} else v in
-      if rtype_eqb t' t then
-        (* a lookup subscribes only when it misses; a name that is served is already of interest *)
-        match x, kv_val v1 with
-        | OLookup _ _, Some _ => if String.eqb n' n then v1 else kv_watch v1 n'
-        | _, _ => kv_watch v1 n'
-        end
-      else v1
+  | OSubscribe t' n' => kv_subscribe t v t' n'
+  | OLookup t' n' => kv_lookup t n v t' n'
   | OResp _ _ p =>
       if negb (kv_open v) then v
       else match p with
@@ -167,13 +175,8 @@ Definition kv_step (c : scfg) (o : oracle) (t : rtype) (n : string) (v : keyview
   | OResolve d =>
       (* the resolver looks the cluster up; which endpoint set it then looks up depends on that cluster: the
          per-key view only records the cluster lookup (endpoint keys in such histories are checked through agreement) *)
-      if rtype_eqb t TCl then match kv_val v with Some _ => if String.eqb d n then v else kv_watch v d | None => kv_watch v d end else v
-  | OLookups t' ns =>
-      if rtype_eqb t' t
-      then fold_left (fun a n' => match kv_val a with
-                                  | Some _ => if String.eqb n' n then a else kv_watch a n'
-                                  | None => kv_watch a n' end) ns v
-      else v
+      kv_lookup t n v TCl d
+  | OLookups t' ns => fold_left (fun a n' => kv_lookup t n a t' n') ns v
   | ORecvErr true => {| kv_open := false; kv_table := kv_table v; kv_nds_sub := kv_nds_sub v; kv_interest := kv_interest v; kv_val := kv_val v |}
   | _ => v
   end.
